@@ -1,7 +1,7 @@
 (* C12 — property theorems only.  Each is closed by [exact] of a lemma from
    Proofs_*.v and followed by Print Assumptions. *)
 From Coq Require Import List Arith ZArith Bool.
-From Verif Require Import lib.Wire c12.Model c12.Spec c12.Proofs_conn.
+From Verif Require Import lib.Wire c12.Model c12.SpecSwarm c12.Spec c12.Proofs_conn.
 Import ListNotations.
 
 (* "a peer reachable only over limited connections is reported as Limited
